@@ -148,6 +148,22 @@ def solve_case(case):
         x0 = np.clip(x0, dtype(lo + 0.01 * (hi - lo)), dtype(hi - 0.01 * (hi - lo)))
     if case.get("verbose"):
         kw["verbose"] = True
+    F_res = None
+    if case.get("extra"):
+        # the system is posed through the front-end's additional_args / additional_kwargs: F(x, c, k=0) = F0(x) + k c with k = 1 given by keyword (the default
+        # k = 0 is ANOTHER system); a reported success must be a solution of the system the caller posed
+        F0_, J0_ = F, J
+        cvec = dtype(0.125)
+
+        def F(x, c, k=0.0):
+            return F0_(x) + k * c
+
+        def J(x, c, k=0.0):
+            return J0_(x)
+        jac = J if case["jac"] == "analytic" else None
+        kw["additional_args"] = (cvec,)
+        kw["additional_kwargs"] = dict(k=dtype(1.0))
+        F_res = lambda xl: np.asarray(system(case["system"], shape, np.longdouble)[0](xl), dtype=np.longdouble) + np.longdouble(0.125)
     import contextlib, io
     try:
       with contextlib.redirect_stdout(io.StringIO()):
@@ -177,7 +193,7 @@ def solve_case(case):
             return r
         xl = np.asarray(x, dtype=np.longdouble)
         Fl, _, _ = system(case["system"], shape, np.longdouble)
-        res = float(np.linalg.norm(np.asarray(Fl(xl), dtype=np.longdouble).reshape(-1)))
+        res = float(np.linalg.norm(np.asarray(Fl(xl) if F_res is None else F_res(xl), dtype=np.longdouble).reshape(-1)))
         bound = MULTIPLE * tol_eff * (n + float(np.linalg.norm(np.asarray(x, dtype=np.float64).reshape(-1))))
         if case["system"].startswith("stiff"):
             # the solver sees F through the working precision: its own evaluation of S (A x + 0.1 sin x - b) carries rounding of size eps S (|A||x| + |b| + 0.1),
@@ -247,6 +263,13 @@ def run(ctx):
                             if ctx.quick and shp == [3] and "bounds" in opt_:
                                 continue
                             cases.append(dict(system=sysn, shape=shp, solver=solver, dtype=dn, jac=jac, guess=guess, tol=1e-8, **opt_))
+    # systems posed through additional_args / additional_kwargs of the front-end
+    for sysn in ("sepquad", "coupled", "trig", "cubic"):
+        for shp in ([1], [2], [2, 3]):
+            for solver, dn in (("nonlinear_roots", "float64"), ("nonlinear_roots_builtin", "float64"), ("nonlinear_roots", "longdouble")):
+                for jac in ("analytic", "fd"):
+                    for guess in ("near", "far"):
+                        cases.append(dict(system=sysn, shape=shp, solver=solver, dtype=dn, jac=jac, guess=guess, tol=1e-8, extra=True))
     # stiffly scaled systems: a converged step is not a small residual (all sizes; finite-difference and full user Jacobian; the solvers called directly and
     # the front-end on both dispatch paths)
     for sysn in STIFF:
